@@ -188,7 +188,7 @@ def outJ (inMag : Rat) : Except ErrKind Out → Json
 def parseSimple (j : Json) : Except String SimpleScalar := do
   pure ⟨← getSym j "c", ← getSym j "u", ← getRat j "v"⟩
 
-def handle (j : Json) : Except String Json := do
+def handleOne (j : Json) : Except String Json := do
   let op ← getStr j "op"
   match op with
   | "binop" =>
@@ -241,6 +241,16 @@ def handle (j : Json) : Except String Json := do
     | .error e => pure (errJ e)
     | .ok w => pure (Json.mkObj [("ok", Json.mkObj [("vs", ratsJ [w]), ("M", ratJ (maxR (absR s.v) (absR w)))])])
   | _ => throw s!"unknown op {op}"
+
+/-- `{"op":"seq","steps":[…]}`: a sequence of operations of one process; the model is stateless, every
+step is answered on its own -/
+def handle (j : Json) : Except String Json := do
+  match j.getObjVal? "op" with
+  | .ok (.str "seq") =>
+    let steps ← getArr j "steps"
+    let outs ← steps.toList.mapM handleOne
+    pure (Json.mkObj [("outs", Json.arr outs.toArray)])
+  | _ => handleOne j
 
 def step (j : Json) : Json :=
   match handle j with
